@@ -180,7 +180,7 @@ def run(ctx, out):
                 'snapshot, is a violation. Tagged-union mappings (tag stripped), aliases, duplicates and extra keys are emphasised. '
                 'Non-trivial = non-leaf type.')
     out.evaluations += defaultdict_inputs(out)
-    convprop.run(ctx, out, PROP, monitor, cfg={'weights': {'tagged': 4.0, 'class': 3.0, 'dict': 2.0, 'struct': 1.5}})
+    convprop.run(ctx, out, PROP, monitor, cfg={'weights': {'tagged': 4.0, 'class': 3.0, 'dict': 2.0, 'struct': 1.5}}, extra_cases=lambda rng: convprop.cases_from_pairs(gen.tagged_shape_cases(rng), rng, 'tagged-shapes'))
 
 
 def replay(rep, out):
